@@ -15,6 +15,7 @@ opcode = 2 * kind + arg, kinds:
   D  static captured subset alias 'd'     d(arg, acc)      static; only position 0 (`arg`) is part of the key
   H  data-handler input alias 'h'         h(arg)
   N  nested input    alias 'n'            n()              body calls a(0) (must not be intercepted separately)
+  M  mutating input  alias 'm'            m([arg])         the body appends to the list it was given (key = pre-call value)
   O  instance output alias 'o'            o(acc, k=arg)
   T  static output   alias 't'            t(acc)
   U  data-handler output alias 'u'        u(acc)
@@ -27,9 +28,9 @@ really executed) and `sitelog` at the call sites (what each call returned / rais
 """
 from pbsym.models.serializer import Unserializable
 
-KINDS = ['A', 'B', 'S', 'P', 'R', 'C', 'D', 'H', 'N', 'O', 'T', 'U', 'X']
+KINDS = ['A', 'B', 'S', 'P', 'R', 'C', 'D', 'H', 'N', 'M', 'O', 'T', 'U', 'X']
 NOPS = 2 * len(KINDS)
-INPUT_KINDS = ('A', 'B', 'S', 'P', 'R', 'C', 'D', 'H', 'N')
+INPUT_KINDS = ('A', 'B', 'S', 'P', 'R', 'C', 'D', 'H', 'N', 'M')
 OUTPUT_KINDS = ('O', 'T', 'U', 'X')
 NSLOTS = 8
 
@@ -288,6 +289,13 @@ def make_service(deco, plan, run, handlers=None, params=None):
             in_body('n')
             return self.a(0) + 1
 
+        @deco.intercept_input('m')
+        def m(self, lst):
+            in_body('m', list(lst))
+            v = env('M', lst[0] if isinstance(lst[0], int) else 0)
+            lst.append(99)
+            return v
+
         @deco.intercept_output('o', **outkw)
         def o(self, v, k=0):
             in_body('o', v, k)
@@ -310,7 +318,7 @@ def make_service(deco, plan, run, handlers=None, params=None):
     def call(self, kind, arg, acc):
         bad = Unserializable(1) if 'key_arg' in run.cur_faults else None
         x = bad if bad is not None else arg
-        if bad is not None and kind in ('A', 'B', 'S', 'R', 'C', 'D', 'H'):
+        if bad is not None and kind in ('A', 'B', 'S', 'R', 'C', 'D', 'H', 'M'):
             run.fired.append(('key_arg', run.cur))
         if kind == 'A':
             return self.a(x)
@@ -330,6 +338,8 @@ def make_service(deco, plan, run, handlers=None, params=None):
             return self.h(x)
         if kind == 'N':
             return self.n()
+        if kind == 'M':
+            return self.m([x])
         if kind == 'O':
             run.sent.append(('o', [acc], {'k': arg}))
             return self.o(acc, k=arg)
